@@ -9,10 +9,16 @@ Per run:
      (and DemogSelModels.equil / split_mig_sel on tiny grids); integrate, integrate_point_pos, 2-D integrate,
      integrate_point_pos, integrate_symmetric_point_pos, mixture*, Vourlaki_mixture are run; the cached spectra, the pdf
      values and every scipy quad/dblquad call are read back / recorded and the Coq model recomputes the quadrature
-     (entry by entry, over Q, compared inside Coq at 1e-10); the limits handed to quad are compared with the documented
-     regions;
+     (entry by entry, over Q, compared inside Coq at 1e-10).  The 1-D tail masses the model uses are NOT the values the implementation
+     obtained: the driver integrates the pdf (untouched scipy quad) over the regions outside EACH cache's own grid, the Coq model
+     ([tails_on], [vourlaki_q], table t_quad1 keyed by parameter vector and limits) derives the region of every component from the grid
+     that component's trapezoid runs over and looks the integral up; the limits the implementation handed to quad / dblquad are compared
+     with the documented regions as an obligation, and where a 2-D edge / corner integral deviates the model gets the integrals over the
+     documented regions instead.  Functions combining a Cache1D and a Cache2D (mixture, mixture_symmetric_point_pos, mixture_point_pos,
+     Vourlaki_mixture) run on every run with the two caches on DIFFERENT gamma ranges and grid sizes in every relation (family mixb);
  (3) the property predicates on the implementation itself: linearity in theta, history independence, selection-free
-     total weight (and ~1 on fine grids), mixture weights;
+     total weight (and ~1 on fine grids; for two-cache operations within an a-priori quadrature-error bound), mixture weights,
+     Vourlaki_mixture = theta * stated weighted sum of components recomputed independently from the caches (each with its own grid's tails);
  (4) real multiprocessing: worker counts and split_jobs give identical caches, merge over every subset of
      missing / duplicated split jobs, a conflicting duplicate, raising workers; the Coq scheduler / merge model runs
      on the same inputs (labels) under random interleavings.
@@ -29,6 +35,7 @@ KEY_THETA = 'Cache1D.integrate_point_pos:theta-not-applied-to-cached-point-mass'
 KEY_HIST = 'Cache1D.integrate_point_pos:theta-baked-into-cached-spectrum'
 KEY_MIXPP = 'Cache2D_mod.mixture_point_pos:rho-is-None'
 KEY_MIXSYM = 'Cache2D_mod.mixture_symmetric_point_pos:wrong-parameter-vector'
+KNOWN_KEYS = (KEY_THETA, KEY_HIST, KEY_MIXPP, KEY_MIXSYM)
 
 PDF1 = ['exponential', 'gamma', 'lognormal', 'beta']
 # asymmetric bivariate pdfs, narrow and/or strongly deleterious (mass outside the cached range, both signs of rho), whose density at the
@@ -147,6 +154,11 @@ def gen_scenarios(ctx):
             if rng.random() < 0.5:
                 add(sc, op='int1', pdf1=name, params=pr, ext=False, theta=thetas(rng))
         add(sc, op='int1', pdf1='exponential', params=[2.0], theta=thetas(rng), ext_default=True)
+        # a density whose support starts inside the cached range: at a grid point's neighbourhood (between two points) and exactly on the
+        # smallest cached |gamma| (the neutral-tail integral is then exactly 0)
+        gb = sc['gamma_bounds']
+        with_lin(sc, op='int1', pdf1='shifted_exponential', params=[rng.choice([0.25, 0.75, 1.5, 3.0]), dy(rng, 0.5, 4)], ext=True)
+        add(sc, op='int1', pdf1='shifted_exponential', params=[gb[0], dy(rng, 0.5, 4)], ext=True, theta=thetas(rng))
         # point masses: cached gammapos, one and two masses
         name = rng.choice(PDF1[:3]); pr = pdf1_params(rng, name)
         pp = dy(rng, 0.125, 0.5)
@@ -258,8 +270,91 @@ def gen_scenarios(ctx):
                                  add(sc, op='pp2', pdf2='biv_lognormal', params=ln + [rho, pp, g, pq, g], rho=rho, theta=th)]
         add(sc, op='mixsym', pdf1='gamma', pdf2='biv_ind_gamma', params=ga + [rho, pp, 9.0, p2d], theta=2.0)      # not cached
         # Vourlaki_mixture(alpha, beta, ppos_wild, gamma_pos, pchange, pchange_pos)
-        with_lin(sc, op='vourlaki', params=ga + [dy(rng, 0, 0.5), g, dy(rng, 0, 1), dy(rng, 0, 1)])
+        vp = [add(sc, op='int1', pdf1='gamma', params=ga, ext=True, theta=1.0), add(sc, op='int2', pdf2='biv_ind_gamma', params=ga, ext=True, theta=1.0)]
+        k = with_lin(sc, op='vourlaki', params=ga + [dy(rng, 0, 0.5), g, dy(rng, 0, 1), dy(rng, 0, 1)], vparts=vp)
+        sc['ops'][sc['ops'][k]['lin_of']]['vparts'] = vp
         add(sc, op='vourlaki', params=ga + [0.25, 9.0, 0.5, 0.5], theta=2.0)                                        # not cached
+
+    # ---- D: functions that combine a Cache1D and a Cache2D, the two caches built on DIFFERENT gamma ranges with different numbers of
+    # grid points -- every relation of the two ranges on every run; a gamma DFE with substantial mass between the two ranges' bounds at each
+    # end where they differ; every mixture weight strictly inside (0,1), and each of them at 0 and at 1 separately.  Each component must take
+    # the tails of the grid its own trapezoid runs over (Model/DFE.v [tails_on], [vourlaki_q]).
+    def p2(lo, hi):
+        return 2.0 ** rng.randint(lo, hi)
+    def rel_bounds(rel):
+        wide = lambda: [1.0 / p2(5, 8), p2(5, 7)]
+        narrow = lambda: [1.0 / p2(0, 2), p2(2, 3)]
+        w, n = wide(), narrow()
+        if rel == '1d-contains-2d':
+            return w, n
+        if rel == '2d-contains-1d':
+            return n, w
+        if rel == '1d-more-lethal-2d-more-neutral':
+            return [n[0], w[1]], [w[0], n[1]]
+        if rel == '2d-more-lethal-1d-more-neutral':
+            return [w[0], n[1]], [n[0], w[1]]
+        raise ValueError(rel)
+    RELS = ['1d-contains-2d', '2d-contains-1d', '1d-more-lethal-2d-more-neutral', '2d-more-lethal-1d-more-neutral']
+    off = rng.randrange(2)
+    for rep in range(ctx.pick(1, 4)):
+        for ri, rel in enumerate(RELS):
+            kind = 'const' if (ri + off + rep) % 2 else 'cheap'
+            g = rng.choice([2.0, 4.0])
+            cc = cheap() if kind == 'cheap' else {'kind': 'const', 'c': [0.5, 0, 0, 0, 0.25]}
+            b1, b2 = rel_bounds(rel)
+            n1p = rng.randint(4, 8)
+            sc = new(c1=cc, c2=dict(cc), ns=rng.choice([[2, 2], [2, 3]]), pts=rng.choice([[8, 10, 12], [6]]), gamma_bounds=b1, gamma_bounds2=b2,
+                     gamma_pts=n1p, gamma_pts2=rng.choice([k for k in (2, 3, 4) if k != n1p]), additional_gammas=[g], family='mixb', relation=rel,
+                     selfree=(kind == 'const'))
+            # the gamma DFE: scale 3..6, shape about 1: 6-28% of the mass below 1/4..1 and 13-51% above 4..8, < 1% below 1/32 and above 32
+            ga = [rng.choice([0.75, 1.0, 1.5]), rng.choice([3.0, 4.0, 6.0])]
+            ln = [rng.choice([0.5, 1.0, 1.5]), rng.choice([1.0, 1.5, 2.0])]
+            rho = rng.choice([-0.5, 0.25, 0.5, 0.75])
+            inner = lambda: dy(rng, 0.125, 0.875)
+            th = thetas(rng)
+            # Vourlaki_mixture(alpha, beta, ppos_wild, gamma_pos, pchange, pchange_pos): components recomputed independently
+            m5 = add(sc, op='int1', pdf1='gamma', params=ga, ext=True, theta=1.0)
+            m6 = add(sc, op='int2', pdf2='biv_ind_gamma', params=ga, ext=True, theta=1.0)
+            w3 = [inner(), inner(), inner()]
+            k1 = add(sc, op='vourlaki', params=ga + [w3[0], g, w3[1], w3[2]], theta=1.0, vparts=[m5, m6], weights='interior')
+            add(sc, op='vourlaki', params=ga + [w3[0], g, w3[1], w3[2]], theta=th, lin_of=k1, vparts=[m5, m6], weights='interior')
+            for j in range(3):
+                for v in (0.0, 1.0):
+                    w = [inner(), inner(), inner()]; w[j] = v
+                    add(sc, op='vourlaki', params=ga + [w[0], g, w[1], w[2]], theta=th, vparts=[m5, m6],
+                        weights='%s=%d' % (('ppos_wild', 'pchange', 'pchange_pos')[j], int(v)))
+            # mixture / mixture_symmetric_point_pos / mixture_point_pos: p2d inside (0,1), and at 0 and 1 (linearity of these: family mix)
+            pa = [add(sc, op='int1', pdf1='gamma', params=ga, ext=True, theta=th),
+                  add(sc, op='int2', pdf2='biv_ind_gamma', params=ga + [rho], ext=True, theta=th)]
+            for p2d in [inner(), 0.0, 1.0]:
+                add(sc, op='mix', pdf1='gamma', pdf2='biv_ind_gamma', params=ga + [rho, p2d], ext=True, theta=th, parts=pa)
+            add(sc, op='mix', pdf1='lognormal', pdf2='biv_lognormal', params=ln + [rho, inner()], ext=True, theta=th,
+                parts=[add(sc, op='int1', pdf1='lognormal', params=ln, ext=True, theta=th),
+                       add(sc, op='int2', pdf2='biv_lognormal', params=ln + [rho], ext=True, theta=th)])
+            pp, pq = inner() / 2, inner() / 2
+            pa = [add(sc, op='pp1', pdf1='gamma', params=ga + [pp, g], npos=1, theta=th),
+                  add(sc, op='sympp2', pdf2='biv_ind_gamma', params=ga + [rho, pp, g], theta=th)]
+            pb = [add(sc, op='pp1', pdf1='lognormal', params=ln + [pp, g], npos=1, theta=th),
+                  add(sc, op='pp2', pdf2='biv_lognormal', params=ln + [rho, pp, g, pq, g], rho=rho, theta=th)]
+            for p2d in ([inner()] if ctx.quick else [inner(), 0.0, 1.0]):
+                add(sc, op='mixsym', pdf1='gamma', pdf2='biv_ind_gamma', params=ga + [rho, pp, g, p2d], theta=th, parts=pa)
+                add(sc, op='mixpp', pdf1='lognormal', pdf2='biv_lognormal', params=ln + [rho, pp, g, pq, g, p2d], theta=th, parts=pb)
+
+    # ---- E: the same on fine grids with selection having no effect: result = theta * S * total weight, total weight = 1 up to the
+    # quadrature error, for which there is an a-priori bound here (bound1_exp, bound2_exp): exponential-shaped gamma DFE (alpha = 1).
+    # (quick tier: decided by the predicates on the implementation; the Coq recomputation of two-cache operations runs on family mixb)
+    for rel, b1, n1f, b2, n2f in [('1d-contains-2d', [1e-4, 2000.0], 200, [0.5, 20.0], 40),
+                                  ('2d-contains-1d', [0.5, 20.0], 60, [2.0 ** -7, 64.0], ctx.pick(40, 60))]:
+        sc = new(c1={'kind': 'const', 'c': [0.5, 0, 0, 0, 0.25]}, c2={'kind': 'const', 'c': [0.5, 0, 0, 0, 0.25]}, ns=[2, 2], pts=[4],
+                 gamma_bounds=b1, gamma_pts=n1f, gamma_bounds2=b2, gamma_pts2=n2f, additional_gammas=[2.0], family='mixb-fine', relation=rel,
+                 selfree=True, total_one='apriori', no_coq=(ctx.quick or n2f > 40))
+        ga = [1.0, 2.0]
+        m5 = add(sc, op='int1', pdf1='gamma', params=ga, ext=True, theta=1.0)
+        m6 = add(sc, op='int2', pdf2='biv_ind_gamma', params=ga, ext=True, theta=1.0)
+        add(sc, op='vourlaki', params=ga + [0.5, 2.0, 0.75, 0.5], theta=2.0, vparts=[m5, m6], weights='interior')
+        k = add(sc, op='mix', pdf1='gamma', pdf2='biv_ind_gamma', params=ga + [0.5, 0.5], ext=True, theta=2.0)
+        sc['ops'][k]['parts'] = [add(sc, op='int1', pdf1='gamma', params=ga, ext=True, theta=2.0),
+                                 add(sc, op='int2', pdf2='biv_ind_gamma', params=ga + [0.5], ext=True, theta=2.0)]
     return scs
 
 # ------------------------------------------------------------------------------------------------------------
@@ -284,12 +379,16 @@ class Tables:
         self.pdf1 = []; self.tl1 = []; self.pdf2 = []; self.test2 = []; self.tl2 = []
         self.pdf1_s2 = []        # 1-D pdf evaluated on s2's grid (Vourlaki)
         self.pairs1 = []         # 1-D tail pairs in call order: (params, a_neu, b_neu, wneu, a_del, b_del, wdel)
+        self.quad1 = []          # reference quad table for Coq: (params, lo, hi or None, value) over the documented regions of each cache's grid
+        self.ref1 = {}           # (func, tuple(params)) -> {'s1': {...}, 's2': {...}} (driver's independent reference)
+        self.ref_tl2 = {}        # (func, tuple(params)) -> reference 2-D block (only present when the operation's own limits deviate)
         self.problems = []
 
 def parse_records(rec, c1, c2):
     t = Tables()
     neg1 = [-x for x in c1['neg']] if c1 else None
     neg2 = [-x for x in c2['neg']] if c2 else None
+    t.same_grid = neg1 is not None and neg1 == neg2
     for p in rec['pdf']:
         if 'yy' in p:
             if p['xx'] == neg2 and p['yy'] == neg2:
@@ -305,6 +404,22 @@ def parse_records(rec, c1, c2):
                 t.pdf1_s2.append((p['params'], p['out']))
             else:
                 t.problems.append('pdf evaluated on an unexpected grid')
+    if 'ref_error' in rec:
+        t.problems.append('reference tail integrals could not be computed: ' + rec['ref_error'])
+    for ent in rec.get('ref1', []):
+        t.ref1[(ent['func'], tuple(ent['params']))] = ent
+        for tag in ('s1', 's2'):
+            e = ent.get(tag)
+            if e is None:
+                continue
+            if 'error' in e:
+                t.problems.append('reference tail integral failed: ' + e['error']); continue
+            for lim, val in ((e['neu_lim'], e['neu']), (e['del_lim'], e['del'])):
+                row = (ent['params'], lim[0], None if lim[1] == float('inf') else lim[1], val)
+                if row not in t.quad1:
+                    t.quad1.append(row)
+    for blk in rec.get('ref_tl2', []):
+        t.ref_tl2[(blk['func'], tuple(blk['params']))] = blk
     qs = rec['quad']
     i = 0
     inf = float('inf')
@@ -320,7 +435,7 @@ def parse_records(rec, c1, c2):
         if r['kind'] == 'quad' and r['func'].startswith('biv_'):
             # a 2-D block: per grid point 2 (symmetric) or 4 quads, then 2 or 3 dblquads
             n = len(neg2)
-            blk = {'q1low': [], 'q1high': [], 'q2low': [], 'q2high': [], 'lims': [], 'params': r['args'].get('params')}
+            blk = {'q1low': [], 'q1high': [], 'q2low': [], 'q2high': [], 'lims': [], 'params': r['args'].get('params'), 'func': r['func']}
             for ii in range(n):
                 if i + 1 >= len(qs):
                     t.problems.append('2-D edge integrals end early'); break
@@ -350,12 +465,21 @@ def check_limits(ctx, sc, op, t, c1, c2):
     inf = float('inf')
     for k, pr in enumerate(t.pairs1):
         # Vourlaki's own pair (the second one) integrates over s2's range, every other pair over s1's
-        neg = c2['neg'] if (op['op'] == 'vourlaki' and k >= 1) else c1['neg']
+        own = 's2' if (op['op'] == 'vourlaki' and k >= 1) else 's1'
+        neg = c2['neg'] if own == 's2' else c1['neg']
         if not (pr['neu']['a'] == 0.0 and pr['neu']['b'] == -neg[-1] and pr['del']['a'] == -neg[0] and pr['del']['b'] == inf):
-            bad.append('1-D tails integrate over (%r,%r) and (%r,%r), expected (0,%r) and (%r,inf)' % (
-                pr['neu']['a'], pr['neu']['b'], pr['del']['a'], pr['del']['b'], -neg[-1], -neg[0]))
+            bad.append('1-D tails of the component integrated over %s\'s grid are taken over (%r,%r) and (%r,%r), expected (0,%r) and (%r,inf)' % (
+                own, pr['neu']['a'], pr['neu']['b'], pr['del']['a'], pr['del']['b'], -neg[-1], -neg[0]))
+        # ... and their values are the reference integrals over those regions (same scipy call, recomputed by the driver)
+        ref = (t.ref1.get((pr['neu']['func'], tuple(pr['params'] or []))) or {}).get(own)
+        if ref is None or 'error' in ref:
+            bad.append('no reference tail integral for %s%r on %s' % (pr['neu']['func'], pr['params'], own))
+        elif not (close(pr['neu']['val'], ref['neu'], 1.0, 1e-12) and close(pr['del']['val'], ref['del'], 1.0, 1e-12)):
+            bad.append('1-D tail masses (%r, %r) differ from the integrals over the regions outside %s\'s grid (%r, %r)' % (
+                pr['neu']['val'], pr['del']['val'], own, ref['neu'], ref['del']))
     for blk in t.tl2:
         neg = c2['neg']; mx, mn = -neg[-1], -neg[0]
+        nb = len(bad)
         for kind, ii, a, bq, g in blk['lims']:
             want = (mn, inf) if kind.endswith('low') else (0.0, mx)
             if (a, bq) != want or (g is not None and g != -neg[ii]):
@@ -366,6 +490,8 @@ def check_limits(ctx, sc, op, t, c1, c2):
                 bad.append('2-D corner integrates over %r, expected %r' % ((d['a'], d['b'], d['g'], d['h']), w))
         if len(blk['dbl']) not in (2, 3):
             bad.append('%d corner integrals' % len(blk['dbl']))
+        if len(bad) > nb:
+            blk['deviates'] = True          # the Coq side then gets the reference integrals over the documented regions
     return bad
 
 # ------------------------------------------------------------------------------------------------------------
@@ -374,18 +500,22 @@ def check_limits(ctx, sc, op, t, c1, c2):
 def qopt(x):
     return 'None' if x is None else '(Some %s)' % q(x)
 
-def tails_text(blk, n):
+def tails_text(blk, n, t=None):
+    ref = t.ref_tl2.get((blk.get('func'), tuple(blk['params'] or []))) if (t is not None and blk.get('deviates')) else None
+    if ref is not None:
+        return '{| q1low := %s; q1high := %s; q2low := %s; q2high := %s; c_nn := %s; c_dn := %s; c_nd := %s |}' % (
+            ql(ref['q1low']), ql(ref['q1high']), ql(ref['q2low']), ql(ref['q2high']), q(ref['dbl'][0]), q(ref['dbl'][1]), q(ref['dbl'][2]))
     dbl = [d['val'] for d in blk['dbl']] + [0.0, 0.0, 0.0]
     return '{| q1low := %s; q1high := %s; q2low := %s; q2high := %s; c_nn := %s; c_dn := %s; c_nd := %s |}' % (
         ql(blk['q1low']), ql(blk['q1high']), ql(blk['q2low']), ql(blk['q2high']), q(dbl[0]), q(dbl[1]), q(dbl[2]))
 
 def tab_text(t):
     pdf1 = '; '.join('(%s, %s)' % (ql(p), ql(o)) for p, o in t.pdf1)
-    tl1 = '; '.join('(%s, (%s, %s))' % (ql(pr['params']), q(pr['neu']['val']), q(pr['del']['val'])) for pr in t.pairs1)
+    qd1 = '; '.join('(%s, %s, %s, %s)' % (ql(p), q(lo), qopt(hi), q(v)) for p, lo, hi, v in t.quad1)
     pdf2 = '; '.join('(%s, %s)' % (ql(p), qll(o)) for p, o in t.pdf2)
     test2 = '; '.join('(%s, %s)' % (ql(p), qll(o)) for p, o in t.test2)
-    tl2 = '; '.join('(%s, %s)' % (ql(blk['params']), tails_text(blk, 0)) for blk in t.tl2)
-    return '{| t_pdf1 := [%s]; t_tl1 := [%s]; t_pdf2 := [%s]; t_test2 := [%s]; t_tl2 := [%s] |}' % (pdf1, tl1, pdf2, test2, tl2)
+    tl2 = '; '.join('(%s, %s)' % (ql(blk['params']), tails_text(blk, 0, t)) for blk in t.tl2)
+    return '{| t_pdf1 := [%s]; t_quad1 := [%s]; t_pdf2 := [%s]; t_test2 := [%s]; t_tl2 := [%s] |}' % (pdf1, qd1, pdf2, test2, tl2)
 
 def rows_text(rows, elem):
     """a list literal; runs of identical consecutive elements are written with [repeat] (selection-free caches hold one spectrum many times)"""
@@ -428,12 +558,16 @@ def op_texts(op, rec, t):
     if k == 'mixpp':
         return [((r1, None, r), 'OMixPP %s %s %s %s' % (b(r1), b(r), th, pr)) for r1 in (False, True) for r in (False, True)]
     if k == 'vourlaki':
-        if not (len(t.pairs1) == 2 and len(t.tl2) == 1 and len(t.pdf1) >= 1 and len(t.pdf2) == 1 and len(t.test2) == 1):
+        # the pdf on s1's grid (m5), on s2's grid (m4, m7): recorded from the implementation's calls; when it evaluated the pdf elsewhere
+        # (reported by check_limits) the driver's own evaluation on the documented grid stands in.  The tail masses are NOT taken from the
+        # implementation's calls: the model looks up quad over the regions outside each cache's own grid (t_quad1).
+        ref = t.ref1.get(('gamma', tuple(op['params'][:2]))) or {}
+        w1 = t.pdf1[0][1] if t.pdf1 else (ref.get('s1') or {}).get('w')
+        w2 = t.pdf1_s2[0][1] if t.pdf1_s2 else (t.pdf1[-1][1] if (len(t.pdf1) >= 2 and t.same_grid) else (ref.get('s2') or {}).get('w'))
+        if not (len(t.tl2) == 1 and w1 is not None and w2 is not None and len(t.pdf2) == 1 and len(t.test2) == 1):
             return []
-        w2 = t.pdf1_s2[0][1] if t.pdf1_s2 else t.pdf1[-1][1]
-        return [((None, None, None), 'OVour %s %s %s %s %s %s %s %s %s %s %s' % (
-            th, ql(t.pdf1[0][1]), q(t.pairs1[0]['neu']['val']), q(t.pairs1[0]['del']['val']), qll(t.pdf2[0][1]), qll(t.test2[0][1]),
-            tails_text(t.tl2[0], 0), ql(w2), q(t.pairs1[1]['neu']['val']), q(t.pairs1[1]['del']['val']), pr))]
+        return [((None, None, None), 'OVour %s %s %s %s %s %s %s' % (
+            th, ql(w1), qll(t.pdf2[0][1]), qll(t.test2[0][1]), tails_text(t.tl2[0], 0, t), ql(w2), pr))]
     raise ValueError(k)
 
 HEADER = ('From Coq Require Import ZArith QArith List.\nFrom Dadi Require Import Base.Num Base.NumQ Model.DFE Model.Sched Model.DFECheck.\n'
@@ -449,6 +583,8 @@ def unmasked(rec, shape):
     return list(range(1, n - 1))
 
 def scenarios(ctx):
+    import time as _time
+    _t0 = _time.time()
     scs = gen_scenarios(ctx)
     if ctx.replay:
         rp = json.load(open(ctx.replay))
@@ -457,7 +593,7 @@ def scenarios(ctx):
             scs = [sc]
     # the scenarios are independent: run them in up to 5 driver processes (heaviest first, round robin)
     from concurrent.futures import ThreadPoolExecutor
-    cost = lambda sc: len(sc['ops']) * (8 if sc['family'] == 'mix' else 3 if sc['family'].startswith('2d') else 1) + sc['gamma_pts'] / 50.0
+    cost = lambda sc: len(sc['ops']) * (8 if sc['family'].startswith('mix') else 3 if sc['family'].startswith('2d') else 1) + sc['gamma_pts'] / 50.0
     order = sorted(scs, key=cost, reverse=True)
     nproc = min(5, len(order))
     chunks = [order[i::nproc] for i in range(nproc)]
@@ -469,9 +605,11 @@ def scenarios(ctx):
     cid = 0
     viol = {}        # key -> count (to limit replays)
     def violation(what, key, sc, op, extra=None):
-        viol[key] = viol.get(key, 0) + 1
-        if viol[key] <= (2 if key else 6):
-            ops = [o for o in sc['ops'] if o['k'] == op['k'] or o['k'] in (op.get('lin_of'), op.get('hist_of'), op.get('after')) or o['k'] in (op.get('parts') or [])]
+        cls = key or what[:36]                  # at most two replays per known-finding key / per kind of message and function
+        viol[cls] = viol.get(cls, 0) + 1
+        if viol[cls] <= 2 and sum(1 for c, n in viol.items() if c not in KNOWN_KEYS for _ in range(min(n, 2))) <= 12:
+            ops = [o for o in sc['ops'] if o['k'] == op['k'] or o['k'] in (op.get('lin_of'), op.get('hist_of'), op.get('after'))
+                   or o['k'] in (op.get('parts') or []) or o['k'] in (op.get('vparts') or [])]
             ctx.violation(what, data={'scenario': dict(sc, ops=renumber(ops)), 'detail': extra}, key=key)
     for sc in scs:
         r = byid[sc['id']]
@@ -521,7 +659,7 @@ def scenarios(ctx):
                 violation('%s returned non-finite entries (params=%r)' % (FN[op['op']], op['params']), key, sc, op, {'res': rec.get('res')})
             elif sc.get('no_coq'):
                 ctx.count('predicates only (no Coq case)')
-            elif not bad or op['op'] != 'vourlaki':
+            else:
                 sq = 0.0
                 if op['op'] in ('pp2', 'mixpp'):
                     pl = op['params'][-4:] if op['op'] == 'pp2' else op['params'][-5:-1]
@@ -551,7 +689,13 @@ def scenarios(ctx):
             text.append('Eval vm_compute in results.')
             files.append(('C17_sc_%d_%d' % (sc['id'], k0 // SH), '\n'.join(text) + '\n'))
         predicates(ctx, sc, r, results, violation)
+    import time as _time
+    ctx.notes.append('drivers done after %.1fs' % (_time.time() - _t0))
+    _t1 = _time.time()
+    files.sort(key=lambda nt: -len(nt[1]))          # heaviest first (16 coqc processes at a time)
     out = lib.run_case_files(files, timeout=900)
+    ctx.notes.append('coq case files: %d files, %.1fs wall; slowest: %s' % (len(files), _time.time() - _t1,
+                     ', '.join('%s %.1fs' % (n, o[3]) for n, o in sorted(out.items(), key=lambda kv: -kv[1][3])[:5])))
     # a case file that did not compile (killed under memory pressure, timeout) is retried once, alone
     again = [(n, t) for n, t in files if out[n][0] != 0]
     for n, t in again[:6]:
@@ -589,6 +733,18 @@ def scenarios(ctx):
                 ctx.count('variant %s=%s' % (nm, 'repaired' if assign[s] else 'snapshot'))
     ctx.obligation('one model variant (snapshot / repaired per function) reproduces every operation', bool(feasible), 'correspondence')
     if not ctx.replay:
+        RELS = ['1d-contains-2d', '2d-contains-1d', '1d-more-lethal-2d-more-neutral', '2d-more-lethal-1d-more-neutral']
+        WV = ['interior'] + ['%s=%d' % (nm, v) for nm in ('ppos_wild', 'pchange', 'pchange_pos') for v in (0, 1)]
+        miss = [(rel, w) for rel in RELS for w in WV if not ctx.stats.get('vourlaki relation=%s weights=%s' % (rel, w))]
+        ctx.obligation('generator covered Vourlaki_mixture on two caches with different gamma ranges and grid sizes: every relation of the two ranges '
+                       '(1-D contains 2-D, 2-D contains 1-D, crossing both ways) x (all three mixture weights inside (0,1); each at 0 and at 1)',
+                       not miss, 'correspondence', repr(miss[:4]))
+        thin = [rel for rel in RELS if ctx.stats.get('vourlaki between-mass>=5%% relation=%s' % rel, 0) < 3]
+        ctx.obligation('in every relation at least 3 Vourlaki_mixture evaluations have >= 5% of the gamma DFE\'s mass between the bounds of the two grids '
+                       'and a non-zero weight on the mixed-sign components', not thin, 'correspondence', repr(thin))
+        nf = ctx.stats.get('total weight checked against 1 (a-priori bound)', 0)
+        ctx.obligation('two-cache total weight checked against 1 within the a-priori quadrature-error bound (%d evaluations, >= 4 required)' % nf,
+                       nf >= 4, 'correspondence')
         nprobe = ctx.stats.get('symmetry probe decided by atol=0 (asymmetric pdf, density < 1e-8 at the probe points)', 0)
         ctx.obligation('generator covered the symmetric-shortcut decision where only atol=0 separates an asymmetric pdf from a symmetric one (%d integrations, >= 6 required)' % nprobe,
                        nprobe >= 6, 'correspondence')
@@ -605,9 +761,10 @@ def scenarios(ctx):
         if not ok:
             nbad += 1
             if nbad <= 3:
-                ctx.violation('%s disagrees with the quadrature model (pdf %s/%s, params %r, theta %r)' % (
-                    FN[op['op']], op.get('pdf1'), op.get('pdf2'), op['params'], op.get('theta')),
-                    data={'scenario': dict(sc, ops=renumber([o for o in sc['ops'] if o['k'] <= op['k'] and (o['k'] == op['k'] or o['op'] == 'pp1')])),
+                ctx.violation('%s disagrees with the quadrature model (pdf %s/%s, params %r, theta %r; %s)' % (
+                    FN[op['op']], op.get('pdf1'), op.get('pdf2'), op['params'], op.get('theta'), cache_desc(sc)),
+                    data={'scenario': dict(sc, ops=renumber([o for o in sc['ops'] if (o['k'] <= op['k'] and (o['k'] == op['k'] or o['op'] == 'pp1'))
+                                                             or o['k'] in (op.get('vparts') or []) or o['k'] in (op.get('parts') or [])])),
                           'impl': rec.get('res') or rec.get('error'), 'coq': [(v, got.get(i)) for v, i in lst]}, key=None)
 
 def renumber(ops):
@@ -622,11 +779,12 @@ def renumber(ops):
                     o2[f] = m[o2[f]]
                 else:
                     del o2[f]
-        if 'parts' in o2:
-            if all(p in m for p in o2['parts']):
-                o2['parts'] = [m[p] for p in o2['parts']]
-            else:
-                del o2['parts']
+        for f in ('parts', 'vparts'):
+            if f in o2:
+                if all(p in m for p in o2[f]):
+                    o2[f] = [m[p] for p in o2[f]]
+                else:
+                    del o2[f]
         out.append(o2)
     return out
 
@@ -637,6 +795,90 @@ def vals(rec):
     if 'error' in rec or not rec.get('finite', True):
         return None
     return [v for v, m in zip(rec['res'], rec['mask']) if not m]
+
+def tw1_of(w, xs, neu, dele):
+    """total_weight1d of Model/DFE.v"""
+    return trapz(w, xs) + neu + dele
+
+def tw2_of(W, xs, blk):
+    """total_weight2d of Model/DFE.v (blk: recorded block {'q1low',..,'dbl': [records]} or reference block {'dbl': [floats]})"""
+    n = len(xs)
+    tw = trapz([trapz([W[i][j] for i in range(n)], xs) for j in range(n)], xs)
+    symm = not blk['q2low']
+    tw += trapz(blk['q1low'], xs) + trapz(blk['q1high'], xs)
+    tw += trapz(blk['q1low'] if symm else blk['q2low'], xs) + trapz(blk['q1high'] if symm else blk['q2high'], xs)
+    d = [x['val'] if isinstance(x, dict) else x for x in blk['dbl']]
+    return tw + d[0] + d[1] + (d[1] if len(d) == 2 else d[2])
+
+def block2(t, sym_expected=None):
+    """the 2-D tail block of an operation with exactly one 2-D integration: the recorded one, or -- when its limits deviate from the
+    documented regions -- the reference block over the documented regions (restricted to what a symmetric pdf uses)"""
+    if len(t.tl2) != 1:
+        return None
+    blk = t.tl2[0]
+    ref = t.ref_tl2.get((blk.get('func'), tuple(blk['params'] or []))) if blk.get('deviates') else None
+    if ref is None:
+        return blk
+    if not blk['q2low']:            # the implementation took the symmetric shortcut
+        return {'q1low': ref['q1low'], 'q1high': ref['q1high'], 'q2low': [], 'q2high': [], 'dbl': ref['dbl'][:2]}
+    return ref
+
+def trap_bound_exp(neg, beta):
+    """a-priori bound on |trapezoid - integral| of f(x) = exp(-x/beta)/beta over the grid -neg: sum_i dx_i^3/12 * max_[x_i,x_i+1] |f''|,
+    and f'' = f/beta^2 is positive and decreasing, so the maximum sits at the left end of every interval (rigorous for this f)"""
+    xs = sorted(-x for x in neg)
+    return sum((bb - a) ** 3 / 12.0 * math.exp(-a / beta) / beta ** 3 for a, bb in zip(xs, xs[1:]))
+
+QUAD_EPS1 = 2 * 1.5e-8          # two default-tolerance quad calls (epsabs = 1.49e-8)
+
+def bound1_exp(neg, beta):
+    """|total_weight1d - 1| for gamma(alpha = 1, beta): trapezoid error + the two tail integrals' quad tolerance (the pdf integrates to 1)"""
+    return trap_bound_exp(neg, beta) + QUAD_EPS1
+
+def bound2_exp(neg, beta, blk, dele):
+    """|total_weight2d - 1| for biv_ind_gamma with alpha = 1 and a shared beta (a product density): by C17_regions_tile_the_quadrant the
+    rule's total weight with exact tails is (T + neu + del)^2 - del^2, and |T + neu + del - 1| <= e1; the edge / corner integrals are
+    requested with epsabs=1e-4, epsrel=1e-3: every edge value is within max(1e-4, 1e-3 |v|), trapz over the grid multiplies that by at
+    most the grid's length; four edge families, three corners"""
+    e1 = trap_bound_exp(neg, beta)
+    L = abs(neg[0] - neg[-1])
+    err = lambda v: max(1e-4, 1e-3 * abs(v))
+    edges = sum(L * max(err(v) for v in blk[k]) for k in ('q1low', 'q1high')) * 2
+    d = [x['val'] if isinstance(x, dict) else x for x in blk['dbl']]
+    corners = err(d[0]) + 2 * max(err(x) for x in d[1:])
+    return 2 * e1 + e1 ** 2 + dele ** 2 + edges + corners
+
+def vourlaki_components(op, rec, results, c2, t):
+    """theta * (stated weighted sum), every component recomputed independently of Vourlaki_mixture: m5 / m6 = Cache1D.integrate /
+    Cache2D.integrate of the real code (theta = 1, own operations of the scenario); m2 = m3 = the cached spectrum at (gamma_pos, gamma_pos);
+    m4 / m7 = trapezoid over s2's grid of the gamma pdf times the cached (pos, neg) / (neg, pos) spectra plus the most lethal / most neutral
+    of those spectra times the pdf mass beyond / below s2's grid (the driver's own pdf evaluation and quad calls on s2's grid)"""
+    al, be, pw, gp, pc, pcp = op['params']
+    m5r, m6r = results.get(op['vparts'][0]), results.get(op['vparts'][1])
+    ref = (t.ref1.get(('gamma', (al, be))) or {}).get('s2')
+    if m5r is None or m6r is None or 'error' in m5r or 'error' in m6r or ref is None or 'error' in ref:
+        return None
+    idx = [i for i, g in enumerate(c2['gammas']) if g == gp]
+    if len(idx) != 1:
+        return None
+    i = idx[0]; n = len(c2['neg']); xs = c2['neg']; w = ref['w']; S = c2['spectra']
+    out = []
+    for e in [k for k, m in enumerate(rec['mask']) if not m]:
+        if m5r['res'][e] is None or m6r['res'][e] is None:
+            return None
+        pos_neg = [S[i][j][e] for j in range(n)]
+        neg_pos = [S[j][i][e] for j in range(n)]
+        m4 = trapz([w[j] * pos_neg[j] for j in range(n)], xs) + pos_neg[0] * ref['del'] + pos_neg[-1] * ref['neu']
+        m7 = trapz([w[j] * neg_pos[j] for j in range(n)], xs) + neg_pos[0] * ref['del'] + neg_pos[-1] * ref['neu']
+        m2 = S[i][i][e]
+        fs = (m5r['res'][e] * (1 - pw) * (1 - pc) + m6r['res'][e] * (1 - pw) * pc * (1 - pcp) + m7 * (1 - pw) * pc * pcp
+              + m2 * pw * (1 - pc) + m2 * pw * pc * pcp + m4 * pw * pc * (1 - pcp))
+        out.append(op['theta'] * fs)
+    return out
+
+def cache_desc(sc):
+    return 'Cache1D gamma_bounds=%r gamma_pts=%r, Cache2D gamma_bounds=%r gamma_pts=%r' % (
+        sc['gamma_bounds'], sc['gamma_pts'], sc.get('gamma_bounds2', sc['gamma_bounds']), sc.get('gamma_pts2', sc['gamma_pts']))
 
 def predicates(ctx, sc, r, results, violation):
     c1, c2 = r.get('c1'), r.get('c2')
@@ -712,14 +954,94 @@ def predicates(ctx, sc, r, results, violation):
                               None, sc, op, {'got': v, 'want': want})
                 else:
                     ctx.count('selection-free ok')
-                if sc.get('total_one') and op.get('ext', True):
+                tol1 = sc.get('total_one')
+                if tol1 == 'apriori':       # gamma(alpha = 1, beta) / biv_ind_gamma with the same marginals: a-priori bound
+                    tol1 = None
+                    if op['op'] == 'int1' and op.get('pdf1') == 'gamma' and op['params'][0] == 1.0:
+                        tol1 = bound1_exp(xs, op['params'][1])
+                    elif op['op'] == 'int2' and op.get('pdf2') == 'biv_ind_gamma' and op['params'][0] == 1.0 and len(op['params']) in (2, 3) and len(t.tl2) == 1:
+                        refd = ((t.ref1.get(('gamma', tuple(op['params'][:2]))) or {}).get('s2') or {}).get('del')
+                        dele = refd if refd is not None else math.exp(-(-xs[0]) / op['params'][1])
+                        tol1 = bound2_exp(xs, op['params'][1], t.tl2[0], dele)
+                if tol1 and op.get('ext', True):
                     ctx.count('total weight checked against 1')
-                    ctx.notes.append('total quadrature weight %s%r, %d grid points on %r: %.6f (tolerance %g)' % (
-                        op.get('pdf1') or op.get('pdf2'), op['params'], len(xs), sc['gamma_bounds'], tw, sc['total_one']))
-                    if abs(tw - 1.0) > sc['total_one']:
-                        violation('total quadrature weight of %s%r on a fine grid is %r, not 1 +- %g' % (
-                            op.get('pdf1') or op.get('pdf2'), op['params'], tw, sc['total_one']), None, sc, op, {'total_weight': tw})
-        # (e) Vourlaki mixture on a selection-free cache with p's: every component has total weight ~ 1 only on fine grids; here: linearity only
+                    ctx.notes.append('total quadrature weight %s%r, %d grid points on (%.6g, %.6g): %.6f (tolerance %.3g)' % (
+                        op.get('pdf1') or op.get('pdf2'), op['params'], len(xs), -xs[-1], -xs[0], tw, tol1))
+                    if abs(tw - 1.0) > tol1:
+                        violation('total quadrature weight of %s%r on a fine grid is %r, not 1 +- %.3g' % (
+                            op.get('pdf1') or op.get('pdf2'), op['params'], tw, tol1), None, sc, op, {'total_weight': tw})
+        # (e) Vourlaki_mixture = theta * the stated weighted sum of its components, each with the tails of the grid it is integrated over
+        if op['op'] == 'vourlaki' and 'vparts' in op and v is not None:
+            t = parse_records(rec, c1, c2)
+            want = vourlaki_components(op, rec, results, c2, t)
+            if want is None:
+                ctx.count('vourlaki components not available')
+            else:
+                scale = max(abs(x) for x in v + want)
+                al, be, pw, gp, pc, pcp = op['params']
+                ref = t.ref1.get(('gamma', (al, be))) or {}
+                if 's1' in ref and 's2' in ref and 'error' not in ref['s1'] and 'error' not in ref['s2']:
+                    between = abs(ref['s1']['neu'] - ref['s2']['neu']) + abs(ref['s1']['del'] - ref['s2']['del'])
+                    mixed = (1 - pw) * pc * pcp + pw * pc * (1 - pcp)
+                    if sc['family'].startswith('mixb'):
+                        ctx.count('vourlaki relation=%s weights=%s' % (sc.get('relation'), op.get('weights')))
+                        if between >= 0.05 and mixed > 0:
+                            ctx.count('vourlaki between-mass>=5%% relation=%s' % sc.get('relation'))
+                if not all(close(a, w, scale) for a, w in zip(v, want)):
+                    violation('%s is not theta * the stated weighted sum of its components, each integrated over its own cache\'s grid with that grid\'s '
+                              'neutral / lethal tail masses: got %r, components give %r (params=%r, theta=%r; %s)' % (
+                                  FN['vourlaki'], v[0], want[0], op['params'], op['theta'], cache_desc(sc)), None, sc, op, {'got': v, 'want': want})
+                else:
+                    ctx.count('vourlaki components ok')
+        # (e') selection has no effect, two caches: theta * S * total weight (C17_selection_free_mixture, C17_selection_free_vourlaki_own_grid_tails)
+        if sc.get('selfree') and v is not None and op['op'] in ('mix', 'vourlaki') and c1 and c2 and op.get('ext', True):
+            t = parse_records(rec, c1, c2)
+            S = c1['spectra'][0]
+            ents = [i for i, m in enumerate(rec['mask']) if not m]
+            blk = block2(t)
+            tw = bound = None
+            if S == c2['spectra'][0][0] and S == c1['neu'] and blk is not None and len(t.pdf2) == 1:
+                tw2 = tw2_of(t.pdf2[0][1], c2['neg'], blk)
+                if op['op'] == 'mix':
+                    ref = t.ref1.get((op['pdf1'], tuple(op['params'][:-2]))) or {}
+                    p2d = op['params'][-1]
+                    if 's1' in ref and 'error' not in ref['s1']:
+                        tw = (1 - p2d) * tw1_of(ref['s1']['w'], c1['neg'], ref['s1']['neu'], ref['s1']['del']) + p2d * tw2
+                        if sc.get('total_one') == 'apriori':
+                            be = op['params'][1]
+                            bound = (1 - p2d) * bound1_exp(c1['neg'], be) + p2d * bound2_exp(c2['neg'], be, blk, (ref.get('s2') or {}).get('del', 0.0))
+                else:
+                    al, be, pw, gp, pc, pcp = op['params']
+                    ref = t.ref1.get(('gamma', (al, be))) or {}
+                    if all(k in ref and 'error' not in ref[k] for k in ('s1', 's2')):
+                        wts = [(1 - pw) * (1 - pc), (1 - pw) * pc * (1 - pcp), (1 - pw) * pc * pcp + pw * pc * (1 - pcp), pw * (1 - pc) + pw * pc * pcp]
+                        tw = (tw1_of(ref['s1']['w'], c1['neg'], ref['s1']['neu'], ref['s1']['del']) * wts[0] + tw2 * wts[1]
+                              + tw1_of(ref['s2']['w'], c2['neg'], ref['s2']['neu'], ref['s2']['del']) * wts[2] + wts[3])
+                        if sc.get('total_one') == 'apriori':
+                            bound = (wts[0] * bound1_exp(c1['neg'], be) + wts[1] * bound2_exp(c2['neg'], be, blk, ref['s2']['del'])
+                                     + wts[2] * bound1_exp(c2['neg'], be))
+            if tw is not None:
+                want = [op['theta'] * S[e] * tw for e in ents]
+                scale = max(abs(x) for x in v + want)
+                if not all(close(a, w, scale) for a, w in zip(v, want)):
+                    violation('selection-free caches: %s = %r but theta*S*(stated weighted sum of the components\' total quadrature weights, each on its '
+                              'own grid: %r) = %r (params=%r; %s)' % (FN[op['op']], v[0], tw, want[0], op['params'], cache_desc(sc)),
+                              None, sc, op, {'got': v, 'want': want})
+                else:
+                    ctx.count('selection-free two-cache ok')
+            else:
+                ctx.count('selection-free two-cache: total weight not computable')
+            if bound is not None:
+                # the statement itself, on the implementation's output alone: result / (theta * S) is one up to the quadrature error
+                tws = [v[k] / (op['theta'] * S[e]) for k, e in enumerate(ents)]
+                dev = max(abs(x - 1.0) for x in tws)
+                ctx.count('total weight checked against 1 (a-priori bound)')
+                ctx.notes.append('total weight of %s%r with selection-free caches (%s): %.6f, a-priori quadrature-error bound %.3g' % (
+                    FN[op['op']], op['params'], cache_desc(sc), tws[0], bound))
+                if not dev <= bound:
+                    violation('selection has no effect, yet %s returns theta * S * %r: the total weight differs from 1 by %.3g, more than the quadrature-error '
+                              'bound %.3g (params=%r; %s)' % (FN[op['op']], tws[0], dev, bound, op['params'], cache_desc(sc)),
+                              None, sc, op, {'total_weight': tws[0], 'bound': bound})
         # (f) type and labels
         if v is not None and op['op'] in ('int1', 'int2', 'mix') and not rec.get('is_spectrum'):
             violation('%s did not return a Spectrum' % FN[op['op']], None, sc, op)
@@ -890,6 +1212,11 @@ def mp_part(ctx, replay_req=None):
     okm = all(mres.get(j, (False, 0))[0] for j, _ in mexprs)
     ctx.obligation('Coq merge model reproduces the outcome of Cache2D.merge on all %d cache lists' % len(mexprs), okm, 'correspondence',
                    '' if okm else repr([j for j, _ in mexprs if not mres.get(j, (False, 0))[0]][:10]))
+    # observation (not part of the verdict): split jobs built on DIFFERENT gamma grids, merged
+    xg = out.get('cross_grid_merge')
+    if xg:
+        ctx.count('merge of split jobs built on different gamma grids: ' + xg['outcome'])
+        ctx.notes.append('observation: Cache2D.merge of split_jobs=2 caches built with gamma_bounds %r and %r: %s' % (xg['bounds'][0], xg['bounds'][1], xg['detail']))
     # raising workers
     for rec in out['raising']:
         ctx.count('raising dim=%d' % rec['dim'])
@@ -944,11 +1271,18 @@ def run(ctx):
                 'sample sizes; extrapolation grids; gamma range and number of grid points; additional positive gammas) x operations '
                 '(integrate, integrate_point_pos with 1-2 cached / uncached point masses, 2-D integrate with symmetric and asymmetric pdfs, '
                 'integrate_point_pos with rho, integrate_symmetric_point_pos, mixture, mixture_symmetric_point_pos, mixture_point_pos, '
-                'Vourlaki_mixture; exterior_int on/off; pdf family and dyadic parameters; theta) from one PRNG; distinct = distinct '
+                'Vourlaki_mixture; exterior_int on/off; pdf family and dyadic parameters; theta) from one PRNG; two-cache operations additionally '
+                'with the 1-D and the 2-D cache on different gamma ranges / grid sizes in each of the four relations of the ranges x mixture weights '
+                'inside (0,1) and each at 0 and 1 (systematic, every run); a density whose support starts inside the grid; distinct = distinct '
                 '(family, op, pdfs, params, theta, flags, grid size, ns); multiprocessing: worker counts x split_jobs, every subset of missing / '
                 'duplicated split jobs for split_jobs <= 4, one conflicting duplicate per job id, a raising worker at every job index')
     ctx.assumptions += [
-        'the tail integrals returned by scipy.integrate.quad / dblquad are taken as given (recorded); only their limits and their use are checked',
+        'the tail integrals returned by scipy.integrate.quad / dblquad are taken as given: 1-D tails as computed by the driver with the same scipy call '
+        'over the documented regions of each cache\'s own grid (the implementation\'s own calls must agree in limits and value), 2-D edge / corner '
+        'integrals as recorded when their limits are the documented ones, else recomputed over the documented regions',
+        'a-priori bound on |total weight - 1| (two-cache fine grids, gamma DFE with alpha = 1): trapezoid error <= sum dx^3/12 * f\'\'(left end) '
+        '(f\'\' > 0 decreasing), product structure of biv_ind_gamma (C17_regions_tile_the_quadrant), scipy meeting the tolerances requested '
+        '(epsabs=1e-4, epsrel=1e-3 for 2-D edges / corners, defaults for 1-D tails)',
         'float64 evaluation is compared with exact rational evaluation at 1e-10 x max |entry| (observed <= 1e-13)',
         'spectra are compared on unmasked entries only',
         'OS scheduling itself is not modelled: the theorem covers every interleaving of the abstract pop/append protocol, the runs sample real ones; '
